@@ -84,24 +84,24 @@ def showEntries (es : List (Name × Lnk)) : String :=
 
 def sortEntries (es : List (Name × Lnk)) : List (Name × Lnk) := es.mergeSort (fun a c => a.1 ≤ c.1)
 
-def bitsOf : Trie → List Nat
+def bitsOf : Trie.Dag → List Nat
   | .nil => []
-  | .val j _ _ _ _ r => j :: bitsOf r
-  | .sub j _ _ r => j :: bitsOf r
+  | .val j _ _ r => j :: bitsOf r
+  | .sub j _ r => j :: bitsOf r
 
 /-- the serialised DAG of `Shard.Node()` -/
-partial def showShardNode (w : Nat) (stat : Stat) (t : Trie) : String :=
-  let rec links : Trie → List String
+partial def showShardNode (w : Nat) (stat : Stat) (t : Trie.Dag) : String :=
+  let rec links : Trie.Dag → List String
     | .nil => []
-    | .val j k _ _ l rest => s!"{prefixStr w j}:{k}={l.cid}/{l.size}" :: links rest
-    | .sub j _ c rest => s!"{prefixStr w j}:{showShardNode w {} c}" :: links rest
+    | .val j k l rest => s!"{prefixStr w j}:{k}={l.cid}/{l.size}" :: links rest
+    | .sub j c rest => s!"{prefixStr w j}:{showShardNode w {} c}" :: links rest
   s!"shard{w}{showNodeStat stat}(" ++ ",".intercalate ((bitsOf t).map toString) ++ ")[" ++ " ".intercalate (links t) ++ "]"
 
 def showNode (st : State) : String :=
   match st.dir with
   | .basic b => s!"dir{showNodeStat b.nodeStat}[" ++
       ",".intercalate (b.sortedLinks.map fun e => s!"{if e.1 = "" then "-" else e.1}={e.2.cid}/{e.2.size}") ++ "]"
-  | .hamt hd => showShardNode hd.width hd.s.stat hd.shard
+  | .hamt hd => showShardNode hd.width hd.s.stat hd.shard.toDag
 
 def showRes : OpRes → String
   | .ok => "ok" | .notfound => "notfound" | .maxlinks => "maxlinks" | .toodeep => "toodeep" | .invalid => "invalid"
@@ -117,10 +117,7 @@ def build (g : Globals) (c : Cfg) : Option State :=
   else
     (Basic.new g s).map fun b => { dyn := c.kind ≠ "basic", dir := .basic { b with s := { b.s with thr := c.pthr } } }
 
-def entriesOf (st : State) : List (Name × Lnk) :=
-  match st.dir with
-  | .basic b => b.links
-  | .hamt hd => hd.shard.ents
+def entriesOf (st : State) : List (Name × Lnk) := dirEntries st
 
 def setTbl (e : Env) (name : Name) (hash : String) : Env :=
   if e.tbl.any (·.1 = name) then
@@ -185,9 +182,10 @@ def step (e : Env) (line : String) : Env × String :=
     match e.st with
     | none => (e, "bad-op")
     | some st =>
-      match st.dir with
-      | .basic b => (e, showEntries b.sortedLinks)
-      | .hamt hd => ({ e with st := some { st with dir := .hamt { hd with shard := hd.shard.stripAll } } }, showEntries hd.shard.ents)
+      let out := match st.dir with
+        | .basic b => showEntries b.sortedLinks
+        | .hamt _ => showEntries (dirEntries st)
+      ({ e with st := some (eachChild st) }, out)
   | ["node"] =>
     match e.st with
     | none => (e, "bad-op")
